@@ -513,15 +513,16 @@ func (pd *perBitData) parseSequenceOf(sizeExtensed bool, params fieldParameters,
 	} else if sizeRange == 1 {
 		numElements += uint64(lb)
 	} else {
-		if err := pd.parseAlignBits(); err != nil {
+		// X.691 20.6 with 11.9: an unconstrained length determinant (two octets from 128 elements on)
+		var repeat bool
+		n, err := pd.parseLength(-1, &repeat)
+		if err != nil {
 			return sliceContent, err
 		}
-		if pd.byteOffset >= uint64(len(pd.bytes)) {
-			err := fmt.Errorf("per data out of range")
-			return sliceContent, err
+		if repeat {
+			return sliceContent, fmt.Errorf("SEQUENCE OF with a fragmented length is not supported")
 		}
-		numElements = uint64(pd.bytes[pd.byteOffset])
-		pd.byteOffset++
+		numElements = n
 		perTrace(1, perBitLog(8, pd.byteOffset, pd.bitsOffset, numElements))
 	}
 	perTrace(2, fmt.Sprintf("Decoding  \"SEQUENCE OF\" struct %s with len(%d)", sliceType.Elem().Name(), numElements))
